@@ -31,8 +31,8 @@ def eval_row(r):
         hull = coxeter.shapes.ConvexPolyhedron(CUBE)
         spec["vertices"] = CUBE
         spec["indices"] = [[int(i) for i in f] for f in hull.faces]
-    if row["rounded"] and t in ("Polygon", "ConvexPolyhedron"):
-        spec["rounding_radius"] = 0.25
+    if row["rounding"] != "absent" and t in ("Polygon", "ConvexPolyhedron"):
+        spec["rounding_radius"] = {"positive": 0.25, "zero": 0.0, "negative": -0.25}[row["rounding"]]
     snap = json.dumps(spec, sort_keys=True)
     try:
         shape = coxeter.from_gsd_type_shapes(spec, dimensions=row["dims"])
@@ -40,11 +40,11 @@ def eval_row(r):
     except Exception as e:
         got = type(e).__name__
     out = []
-    if t == "missing" and row["rounded"]:
+    if t == "missing" and row["rounding"] != "absent":
         return out             # the same row as without the flag
     if got != exp:
         out.append(({"cls": "from_gsd_type_shapes", "obs": "dispatch", "tags": [t, "dims%d" % row["dims"],
-                     "rounded" if row["rounded"] else "plain", "convex" if row["convex"] else "nonconvex"],
+                     "rounding_" + row["rounding"], "convex" if row["convex"] else "nonconvex"],
                      "msg": f"spec {spec if len(str(spec)) < 200 else t} with dimensions={row['dims']} gave {got}, table says {exp}"},
                     {"row": r}))
     if json.dumps(spec, sort_keys=True) != snap:
@@ -87,9 +87,11 @@ def eval_roundtrip(job):
     out = []
 
     def bad(obs, msg, tags=()):
-        out.append(({"cls": cls, "obs": obs, "tags": [job["base"]] + list(tags), "msg": msg}, {"job": job}))
+        out.append(({"cls": cls, "obs": obs, "tags": [job["base"]] + (["radius_zero"] if rec.get("rzero") else []) + list(tags), "msg": msg}, {"job": job}))
 
     shape = me.build(cls, me.bases(cls)[job["base"]])
+    if rec.get("rzero"):
+        shape.radius = 0.0
     mlen = float(np.max(np.abs(me.geom(shape)))) * 2 + 1.0
     proj0 = me.project(shape)
     # ---- GSD round trip
@@ -168,6 +170,8 @@ def eval_roundtrip(job):
             bad("to_hoomd", f"reported centroid {cen.tolist()} is not the origin", ["not_centred"])
         # build the centred reference shape independently and compare everything with it
         ref = me.build(cls, me.bases(cls)[job["base"]])
+        if rec.get("rzero"):
+            ref.radius = 0.0
         core = getattr(ref, "_polyhedron", None) or getattr(ref, "_polygon", None) or ref
         try:
             core.centroid = np.zeros(3)
@@ -210,12 +214,14 @@ def run(ctx):
         cls = r["cls"]
         if r["convex"] is False and cls != "Polygon":
             continue
+        if r["rzero"] and cls not in ("ConvexSpheropolygon", "ConvexSpheropolyhedron"):
+            continue
         names = list(me.bases(cls)) if ctx.tier == "thorough" else list(me.bases(cls))[:2]
         if cls == "Polygon":
             names = ["dart_cw", "dart_negnormal"] if not r["convex"] else ["rect", "pent", "rect_negnormal"]
         for b in names:
             job = {"rec": r, "base": b}
-            ctx.case(("roundtrip", cls, r["convex"], b), sample={"class": cls, "base": b, "expected_back": r["back"],
+            ctx.case(("roundtrip", cls, r["convex"], r["rzero"], b), sample={"class": cls, "base": b, "expected_back": r["back"],
                                                                   "gsd_keys": r["keys"], "hoomd_keys": r["hoomd"]})
             ctx.traces += 1
             for sig, detail in eval_roundtrip(job):
